@@ -118,6 +118,63 @@ theorem send_group_pairs_own (jobs : List UdpJob) :
   unfold sendGroup
   rw [← (key jobs).1, ← (key jobs).2]
 
+/-- a job the batch reader filled: its raw sockaddr and its netip view name the same peer -/
+def PeerConsistent (j : UdpJob) : Prop := j.rawSALen ≠ 0 → j.rawSA = j.raddr
+
+theorem direct_eq_datagram (j : UdpJob) (h : PeerConsistent j) : j.direct = j.datagram (j.tx.take j.txLen) := by
+  unfold UdpJob.direct UdpJob.datagram UdpJob.dest
+  by_cases h0 : j.rawSALen = 0
+  · simp [h0]
+  · simp [h0, h h0]
+
+theorem sendArmed_all (fuel : Nat) : ∀ (plan : List TxAns) (armed : List UdpJob), (∀ j ∈ armed, PeerConsistent j) →
+    (sendArmed fuel plan armed).1 = armed.map fun j => j.datagram (j.tx.take j.txLen) := by
+  induction fuel with
+  | zero => intro plan armed _; simp [sendArmed]
+  | succ f ih =>
+    intro plan armed hc
+    cases armed with
+    | nil => simp [sendArmed]
+    | cons a t =>
+      cases plan with
+      | nil => simp [sendArmed]
+      | cons p pl =>
+        cases p with
+        | sent n =>
+          simp only [sendArmed]
+          rw [ih pl _ (fun j hj => hc j (List.mem_of_mem_drop hj))]
+          rw [← List.map_append, List.take_append_drop]
+        | refused =>
+          simp only [sendArmed]
+          exact List.map_congr_left (fun j hj => direct_eq_datagram j (hc j hj))
+        | retired =>
+          simp only [sendArmed]
+          exact List.map_congr_left (fun j hj => direct_eq_datagram j (hc j hj))
+
+/-- **Partial sends, refusals and retirement change nothing a client sees.**
+Whatever the kernel does with each `sendmmsg` call — sends only the first n of
+the armed messages (the loop re-sends exactly the unsent tail), refuses the
+call (the rest goes out directly, job by job), or proves the syscall unusable
+(batched TX retired, everything direct from then on) — the datagrams that leave
+are exactly each job's own staged bytes to that job's own peer: the same list
+an undisturbed `sendGroup` sends. -/
+theorem send_group_any_kernel_answer (plan : List TxAns) (jobs : List UdpJob) (hc : ∀ j ∈ jobs, PeerConsistent j) :
+    (sendGroupPlan false plan jobs).1 = sendGroup jobs ∧
+    (sendGroupPlan true plan jobs).1 = (jobs.filter fun j => j.txLen != 0).map fun j => j.datagram (j.tx.take j.txLen) := by
+  constructor
+  · rw [send_group_pairs_own]
+    simp only [sendGroupPlan, Bool.false_eq_true, if_false]
+    have hA : ∀ j ∈ (jobs.filter fun j => j.txLen != 0).filter fun j => j.rawSALen != 0, PeerConsistent j :=
+      fun j hj => hc j (List.mem_filter.mp (List.mem_filter.mp hj).1).1
+    rw [sendArmed_all _ plan _ hA]
+    have hD : ((jobs.filter fun j => j.txLen != 0).filter fun j => j.rawSALen == 0).map UdpJob.direct =
+        ((jobs.filter fun j => j.txLen != 0).filter fun j => j.rawSALen == 0).map fun j => j.datagram (j.tx.take j.txLen) :=
+      List.map_congr_left (fun j hj => direct_eq_datagram j (hc j (List.mem_filter.mp (List.mem_filter.mp hj).1).1))
+    rw [hD]
+    simp [List.filter_filter, Bool.and_comm]
+  · simp only [sendGroupPlan, if_true]
+    exact List.map_congr_left (fun j hj => direct_eq_datagram j (hc j (List.mem_filter.mp hj).1))
+
 /-! ### ownership of the slab pointers -/
 
 /-- **Single owner.** From `n` parked slabs, after any sequence of the
@@ -623,6 +680,11 @@ example : senderSlot 4 (.reader 0) = some 4 ∧ senderSlot 4 (.worker 3) = some 
 example : (sendGroup [{ txLen := 1, tx := [1], rawSA := 5, rawSALen := 16 }, { txLen := 1, tx := [2], raddr := 6 },
     { txLen := 1, tx := [3], rawSA := 7, rawSALen := 16 }]).map (fun d => (d.dest, d.body)) = [(6, [2]), (5, [1]), (7, [3])] := by
   decide
+
+-- three armed jobs, the kernel sends 1, then refuses: the other two leave directly — same datagrams, same peers
+example : ((sendGroupPlan false [.sent 1, .refused] [{ txLen := 1, tx := [1], rawSA := 5, raddr := 5, rawSALen := 16 },
+    { txLen := 1, tx := [2], rawSA := 6, raddr := 6, rawSALen := 16 }, { txLen := 1, tx := [3], rawSA := 7, raddr := 7, rawSALen := 16 }]).1.map
+    (fun d => (d.dest, d.body))) = [(5, [1]), (6, [2]), (7, [3])] := by decide
 
 -- ownership: two slabs, a take / enqueue / serve / finish walk and an attempted double release
 example : ((Sys.init 2).run [.take 0 0, .enqueue 0 0, .serveBegin 0 3, .finish 0 (.worker 3), .finish 0 (.worker 3)]).idle = [0, 1] := by
